@@ -3,6 +3,7 @@ package main
 import (
 	"go/ast"
 	"go/token"
+	"strings"
 )
 
 // events lists, in source order, the calls ("f", "x.f"), channel receives ("<-x.f()") and go statements
@@ -120,6 +121,29 @@ func init() {
 			x.defBool("serveRegisters", registers)
 			x.defStrList("serveEvents", x.c18events(fd.Body))
 		}
+		// what is called while the registry lock `mu` is held, per function of proxy/serve.go that takes it:
+		// the events between every mu.Lock and the next mu.Unlock, in source order
+		for _, fn := range []string{"CloseProxy", "Close", "Shutdown", "serve"} {
+			if fd := x.funcDecl("proxy", "", fn); fd != nil {
+				var under []string
+				held, locks := false, 0
+				for _, e := range x.c18events(fd.Body) {
+					switch {
+					case e == "mu.Lock":
+						held = true
+						locks++
+					case e == "mu.Unlock":
+						held = false
+					case held:
+						under = append(under, e)
+					}
+				}
+				if locks == 0 {
+					x.fail("proxy.%s no longer takes mu", fn)
+				}
+				x.defStrList("underLock"+strings.ToUpper(fn[:1])+fn[1:], under)
+			}
+		}
 		// every ListenAndServe* goes through serve()
 		var las []string
 		for _, f := range x.files("proxy") {
@@ -160,6 +184,21 @@ func init() {
 				}
 			}
 			x.defBool("inetafChildrenGetCtx", ok)
+		}
+		// ---- exit.Listen: the signal registration and the call of the handler. Only the events that matter:
+		// anything from os/signal, the channel receives, and the call of the handler parameter ----
+		if fd := x.funcDecl("exit", "", "Listen"); fd != nil {
+			hp := c18paramName(fd, 0)
+			var ev []string
+			for _, e := range x.c18events(fd.Body) {
+				if strings.HasPrefix(e, "signal.") || strings.HasPrefix(e, "<-") || e == hp {
+					if e == hp {
+						e = "handler"
+					}
+					ev = append(ev, e)
+				}
+			}
+			x.defStrList("exitListenEvents", ev)
 		}
 		// ---- main.go: the exit handler handed to exit.Listen, and the tcp-dynamic refresher ----
 		if fd := x.funcDecl(".", "", "main"); fd != nil {
